@@ -321,7 +321,9 @@ def generate():
     try:
         files.update(fn_table.generate_fn_files(read, {
             "bits.rs": c, "raw_vector.rs": c, "int_vector.rs": c, "wavelet_matrix/wm_core.rs": c,
-            "bit_vector/rank_support.rs": {**c, **r}, "sparse_vector.rs": {**c, **p}, "rl_vector/index.rs": {**c, **i}}))
+            "bit_vector/rank_support.rs": {**c, **r}, "sparse_vector.rs": {**c, **p}, "rl_vector/index.rs": {**c, **i},
+            "rl_vector.rs": {**c, **l}, "bit_vector/select_support.rs": {**c, **s},
+            "bit_vector.rs": {**c, "RankSupport::BLOCK_SIZE": r["BLOCK_SIZE"], "SelectSupport::SUPERBLOCK_SIZE": s["SUPERBLOCK_SIZE"]}}))
     except rs2lean.Unsupported as e:
         raise ParseError("function translator: %s" % e)
     try:
